@@ -49,6 +49,7 @@ class Builder:
         loc = "L%d" % self.n
         strip = mode in ("cond", "action")
         sibling = None
+        extra_action = False
         full_bs = dict(bs)
         code = G.render(tpl)
         rule = None
@@ -70,6 +71,10 @@ class Builder:
                     cond = {"or": [{"code": "(%s)" % json.dumps(sibling)}, cond]}
                 rule["condition"] = cond
                 rule["action"] = {"code": "({ran: true})"}
+            elif self.rng.random() < 0.4:
+                # a second, harmless action next to the one under test: each action node runs ITS action
+                rule["actions"] = [{"code": code}, {"code": "({ran: true})"}]
+                extra_action = True
             else:
                 rule["action"] = {"code": code}
             event = dict(event)
@@ -95,6 +100,8 @@ class Builder:
             run["rule"], run["event"], run["embedded"] = rule, event, embedded
         if sibling:
             run["sibling"] = sibling
+        if extra_action:
+            run["extra_action"] = True
         self.runs.append(run)
         return run
 
@@ -176,7 +183,13 @@ def values_agree(r, o, m):
             got = json.loads(o.get("value"))
         except Exception:
             return False, "echo result is not JSON text: %r" % (o.get("value"),)
-        want = m.get("value")
+        # the echo is JSON.stringify(Env.bindings): a Go nil reaches the script as `undefined`, and JSON.stringify leaves out
+        # properties whose value is undefined (array elements become null): null-valued entries cannot be seen through this observation
+        def unseen(x):
+            if isinstance(x, dict): return {k: unseen(v) for k, v in x.items() if v is not None}
+            if isinstance(x, list): return [unseen(v) for v in x]
+            return x
+        want = unseen(m.get("value"))
         return canon(got) == canon(want), "script saw bindings %s, expected exactly %s" % (canon(got)[:300], canon(want)[:300])
     if r["mode"] == "cond":
         want = m.get("cond_bss") or []
@@ -191,7 +204,11 @@ def values_agree(r, o, m):
     if canon(got) != canon(want):
         return False, "result %s, the last expression evaluates to %s" % (canon(got)[:300], canon(want)[:300])
     if r["mode"] == "action":
-        vals = o.get("values") or []
+        vals = list(o.get("values") or [])
+        if r.get("extra_action"):
+            # the harmless second action contributes its own value
+            if {"ran": True} in vals: vals.remove({"ran": True})
+            else: return False, "the second action ({ran: true}) did not complete: FindRules.Values %s" % canon(vals)[:200]
         if canon(vals) != canon([want]):
             return False, "FindRules.Values %s, expected [%s]" % (canon(vals)[:200], canon(want)[:200])
     return True, ""
@@ -230,7 +247,8 @@ def judge(r, o, m, tol_ms):
             if not ok:
                 return "bad", why
         if ic.startswith("error") and r["mode"] == "action":
-            if (o.get("values") or []) or not o.get("isnil", True):
+            others = [{"ran": True}] if r.get("extra_action") else []      # the harmless second action's own value
+            if (o.get("values") or []) != others or not o.get("isnil", True):
                 return "bad", "a failed action node carries a value: %s / %s" % (canon(o.get("value")), canon(o.get("values")))
         if ic == "running":
             return "ok", "unguarded script left running (no watchdog configured)"
@@ -358,7 +376,16 @@ def main():
         sysc, ctl = rng.choice(enabled_settings + disabled_settings + far_settings)
         bs, vis, kw = inputs(mode)
         fam = rng.choice(["value", "value", "value", "throw", "syntax"])
-        if fam == "value":
+        nulls = [k for k, v in vis.items() if v is None and G._ident(k)]
+        if fam == "value" and nulls and rng.random() < 0.5:
+            # a variable bound to null is a declared variable of the script (its value is what the runtime makes of a Go nil):
+            # naming it is not a ReferenceError
+            x = rng.choice(nulls)
+            last = rng.choice([{"arr": [{"typeof": x}, {"op": "===", "l": {"v": x}, "r": {"null": 1}}]}, {"op": "!==", "l": {"v": x}, "r": {"n": 1}},
+                               {"obj": [["same", {"op": "===", "l": {"v": x}, "r": {"v": x}}], ["isone", {"op": "===", "l": {"n": 1}, "r": {"v": x}}]]}])
+            if mode == "cond": last = {"op": "!==", "l": {"v": x}, "r": {"n": 1}}
+            tpl = {"t": "exprs", "pre": [], "last": last}
+        elif fam == "value":
             tpl = finishing(mode, vis)
         elif fam == "throw":
             tpl = G.throw_tpl(rng, vis)
